@@ -115,6 +115,12 @@ def run_case(acc, seed, idx):
             moves = [rng.choice(['manual', 'manual_merge']),
                      rng.choice(['extend', 'move_dst']), 'eval'] + \
                 moves[:rng.randrange(0, 3)]
+        forced_fault = idx % 6 == 0
+        if forced_fault:
+            # directed: manual work, then the command is evaluated by a job
+            # whose refresh of the clone cache / remote fails
+            moves = ['eval', rng.choice(['manual', 'manual_merge'])] + \
+                moves[:1]
         for mv in moves:
             heads = w.refs()[0]
             if mv == 'amend':
@@ -161,13 +167,16 @@ def run_case(acc, seed, idx):
             else:
                 w.run('pr', p['id'])
         command = rng.choice(['reset', 'reset', 'force_reset'])
+        if forced_fault:
+            command = 'reset'
+
         w.do('comment', pr=p['id'], user=rng.choice([AUTHOR, PEER1]),
              text=rng.choice(['/%s', '@robot %s']) % command)
         before = w.snapshot()
         qual = qualifying(w, manual, p['src'], before.refs)
         strict = [m for m in qual if 'dont_care' not in m]
         fault = None
-        if rng.random() < 0.25:
+        if forced_fault or rng.random() < 0.25:
             # one git command of the evaluation that executes the command
             # fails (refresh of the mirror cache, fetch of the remote, ...)
             fault = rng.choice(['fetch --prune', 'remote update',
